@@ -94,7 +94,11 @@ func StartServer(dir string) (srv *Server, err error) {
 		return nil, err
 	}
 	h, t, u := g.Ports()
-	tr := &http.Transport{MaxIdleConns: 8, IdleConnTimeout: 30 * time.Second}
+	// No keep-alive: the server closes idle connections after ReadTimeout
+	// (2.5 s in this build), and Go's client does not retry a POST that hits a
+	// connection the server closed at that very moment - which would look like
+	// "no response" (observed once under load in a C07 batch).
+	tr := &http.Transport{DisableKeepAlives: true}
 	srv = &Server{S: g, Dir: dir, HTTP: h, TCP: t, UDP: u, tr: tr, client: &http.Client{Transport: tr, Timeout: 180 * time.Second}}
 	return srv, nil
 }
